@@ -164,9 +164,45 @@ def gen_ramp_only(rng, tier, index, seed):
             "steps": steps, "gc": {"mode": "none", "heapcheck_every": 1, "growth_c": GROWTH_C}, "knobs": {}, "sched": {"default_q": 500, "tick_budget": 4000000000}}
 
 
+def gen_embed_release(rng, tier, index, seed):
+    """the embedder's side of reachability: objects built through the C API, registered with sexp_preserve_object, released again with
+    sexp_release_object in LIFO / FIFO / mixed order with allocation in between; once released they are unreachable and their memory has to be
+    recycled (the simulator checks that none of them is left on the preserved-objects list; the growth bound covers the rest)"""
+    script = []
+    nkept = 0
+    for _ in range(rng.range(10, 120)):
+        k = rng.below(10)
+        d = rng.below(8)
+        if k <= 3:
+            script.append(["bigvec", d, rng.choice([10, 200, 3000, 30000]), 0, ""])
+            script.append(["keep", 0, d, 0, ""])
+            nkept += 1
+        elif k <= 5 and nkept:
+            script.append([rng.choice(["release", "release", "release0"]), d, 0, 0, ""])
+            script.append(["fixnum", d, 0, 0, ""])
+            nkept -= 1
+        elif k == 6:
+            script.append(["churn", 0, rng.range(10, 250), 0, ""])
+        elif k == 7:
+            script.append(["cons", d, rng.below(8), rng.below(8), ""])
+        else:
+            script.append(["string", d, 0, 0, "x" * rng.choice([1, 100, 5000])])
+    steps = [{"op": "eval", "src": PRELUDE}, {"op": "embed", "script": script, "src": "<embedder script: %d ops>" % len(script)},
+             {"op": "eval", "src": "(sim-gc)"}, {"op": "eval", "src": "(count-live)"}]
+    mode = rng.choice(["none", "bernoulli"])
+    gc = {"mode": mode, "heapcheck_every": 1, "growth_c": GROWTH_C, "max_forced": 300}
+    if mode == "bernoulli":
+        gc["p1024"] = rng.choice([8, 64])
+        gc["seed"] = rng.below(1 << 30)
+    return {"prop": ID, "index": index, "seed": seed, "config": "asan" if rng.chance(1, 6) else "sim", "meta": {"family": "embed-release"},
+            "steps": steps, "gc": gc, "knobs": {"check_release": True}, "sched": {"default_q": 500, "tick_budget": 50000000}}
+
+
 def generate(rng, tier, index, seed):
     if rng.chance(1, 10):
         return gen_ramp_only(rng.fork("ramp"), tier, index, seed)
+    if rng.chance(1, 10):
+        return gen_embed_release(rng.fork("embed"), tier, index, seed)
     variant = "asan" if rng.chance(1, 8) else "sim"
     # the asan variant's 32-byte pad makes first-fit allocation slow (unusable 32-byte chunks pile up): smaller histories there
     ops, est = gen_history(rng.fork("hist"), tier, 0.1 if variant == "asan" else 1.0)
